@@ -1752,6 +1752,12 @@ int LZ4_saveDictHC (LZ4_streamHC_t* LZ4_streamHCPtr, char* safeBuffer, int dictS
     LZ4HC_CCtx_internal* const streamPtr = &LZ4_streamHCPtr->internal_donotuse;
     int const prefixSize = (int)(streamPtr->end - streamPtr->prefixStart);
     DEBUGLOG(5, "LZ4_saveDictHC(%p, %p, %d)", LZ4_streamHCPtr, safeBuffer, dictSize);
+    if (streamPtr->prefixStart == NULL) {
+        /* stream not started yet : nothing to save.
+         * The context must remain un-anchored, so that the next compression call
+         * initializes its indexes (see LZ4_compressHC_continue_generic()) */
+        return 0;
+    }
     assert(prefixSize >= 0);
     if (dictSize > 64 KB) dictSize = 64 KB;
     if (dictSize < 4) dictSize = 0;
